@@ -1287,6 +1287,7 @@ def install(eng):
     def _np_flt(eng, st, args, kw, node):
         return one(st, _NP_FLT(to_int(args[0])))
 
+    B['os.SEEK_SET'], B['os.SEEK_CUR'], B['os.SEEK_END'] = 0, 1, 2
     B['sys.float_info.epsilon'] = fractions.Fraction(1, 2 ** 52)     # binary64 machine epsilon
 
     # ------------------------------------------------ sequence methods
